@@ -5,6 +5,7 @@ package main
 
 import (
 	"fmt"
+	"math/big"
 	"go/types"
 	"os"
 	"path/filepath"
@@ -39,6 +40,7 @@ type Verifier struct {
 	tableMode       string // "pinned" or "extracted"
 	svcTypes        map[string]*types.Named
 	checkAlloc      bool
+	allocK          map[string][2]int64
 	minW            map[string]int64
 	byTag           map[string]*MsgType
 	tblTerms        map[string]tblRef
@@ -369,6 +371,15 @@ func (V *Verifier) VerifyFunction(tg FuncTarget, only map[string]bool) []*Obliga
 			if beh == nil {
 				x.lockReturn(s)
 			}
+			if beh == nil {
+				// ownership: what a codec function returns is freshly allocated, never a view of the buffer or of an argument
+				for i, r := range res {
+					if sl, ok := r.(VSlice); ok && sl.Arr != nil {
+						fresh := sl.Arr.Prov == "fresh" || (sl.IsNil != nil && sl.IsNil.IsTrue())
+						x.obligeProps(s, "frame", fmt.Sprintf("frame/fresh-result#%d@%s", i, pathTag(s)), BoolC(fresh), "a returned slice is freshly allocated (provenance: "+sl.Arr.Prov+")", []string{"C16"})
+					}
+				}
+			}
 			if beh == nil && fc.Pure {
 				for o, c0 := range x.old.heap {
 					if o.Kind == "buffer" && c0.Seq != nil {
@@ -687,6 +698,25 @@ func (x *Exec) applyContract(st *State, fc *FuncContract, origin *ssa.Function, 
 					h = errNil
 				}
 				st.assume(Implies(h, Le(na, Add(st.alloc, t))))
+				// measure: constant part and largest per-byte coefficient of the bound
+				l := newLin()
+				l.add(t, big.NewInt(1))
+				if l.c.IsInt64() {
+					st.allocC += l.c.Int64()
+				} else {
+					st.allocUnknown = true
+				}
+				for k, cf := range l.coef {
+					if cf.Sign() > 0 {
+						if a := l.atoms[k]; a.Op == "app" && a.Name == "len" && cf.IsInt64() {
+							if cf.Int64() > st.allocA {
+								st.allocA = cf.Int64()
+							}
+						} else {
+							st.allocUnknown = true
+						}
+					}
+				}
 			}
 		}
 		if e := fc.Alloc["failure"]; e != nil && errNil != nil {
